@@ -767,7 +767,7 @@ VARIANTS = [
     V("_reduce_storages membership test inverted", FILE, RED, "if disk.mount_point in storage.keys():", "if disk.mount_point not in storage.keys():", "R1"),
     V("_reduce_storages first-seen size zero", FILE, RED, "size=disk.size", "size=0.0", "R1"),
     V("__sub__ fast path forgets the storage (seeded C14/3)", FILE, HSUB, "return Hardware(self.cores - other.cores,",
-      "if not (other.cores or other.memory):\n        return self.normalized()\n    return Hardware(self.cores - other.cores,", "R1", control=True),
+      "if not (other.cores or other.memory):\n        return self.normalized()\n    return Hardware(self.cores - other.cores,", "R1"),
     V("__sub__ fast path on zero cores and memory (comparisons, temporary)", FILE, HSUB, "return Hardware(self.cores - other.cores,",
       "idle = other.cores == 0 and other.memory == 0\n    if idle:\n        return self\n    return Hardware(self.cores - other.cores,", "R1"),
     V("__add__ fast path forgets the memory", FILE, HADD, "return Hardware(self.cores + other.cores,",
